@@ -9,6 +9,8 @@ import PyamgV.Proofs.C16Relax
 import PyamgV.Proofs.Kaczmarz
 import PyamgV.Proofs.SorAdjoint
 import PyamgV.Proofs.Cache
+import PyamgV.Proofs.ExtC16Relax
+import PyamgV.Proofs.ExtC16RelaxEx
 
 /-! # C16 — coarse-grid solvers return the (least-squares) solution in the caller's shape
 
@@ -31,7 +33,11 @@ Clause by clause (T = theorem about the executed model, H = hypothesis checked p
 * repeated calls reuse the factorisation and stay correct — T `run_same_matrix`, `run_factor_once`
 * a matrix without nonzeros yields a zero correction      — T `call_empty`
 * relaxation solvers start from zero, energy norm         — T `relax_gs_energy`, `relax_sor_energy` (gauss_seidel, sor);
-  S the other names; NE/NR variants: known finding, 2-norm facts `kaczmarz_*` -/
+  extension E29 (section 3b, model `C16R.relaxSolveR` on recorded inputs): T `relaxR_*_sweeps` (every other name except
+  schwarz starts from zeros and is `iterations` sweeps of its kernel model), T `relax_jacobi_energy`,
+  `relax_richardson_energy` (H the damping bound), T `relax_gs_ne_error`, `relax_gs_nr_residual_csr`,
+  `relax_jacobi_ne_error` (2-norm of error / residual; NOT the energy norm: known finding); S energy for
+  block_jacobi / block_gauss_seidel on block storage, chebyshev, schwarz -/
 namespace PyamgV.Props.C16
 open PyamgV PyamgV.C16
 
@@ -150,6 +156,74 @@ restate gs_sweep_nonexpansive := PyamgV.gsSweep_nonexp
 restate kaczmarz_step_nonexpansive := PyamgV.proj_step_nonexp
 restate kaczmarz_ne_row_error := PyamgV.ne_row_error
 
+
+/-! ## 3b. the other relaxation names (extension E29, Proofs/ExtC16Relax.lean)
+
+Model `C16R.relaxSolveR` / `C16R.relaxCallR` (Model/ExtC16Relax.lean; driver op `ext_c16_relax`): jacobi with the
+spectral-radius estimate, block_jacobi, block_gauss_seidel, richardson, chebyshev, jacobi_ne, gauss_seidel_ne,
+gauss_seidel_nr.  Recorded inputs `C16R.Rec`: the estimate `rho` returned to the setup, the inverted diagonal blocks,
+the Chebyshev coefficients, the block storage.  `C16R.x0 b` = `np.zeros_like(b)`. -/
+
+/-- on gauss_seidel / sor the extended model is the C16 model ... -/
+restate relaxR_agrees_gs_sor := PyamgV.C16R.relaxSolveR_gs_sor
+/-- ... also on jacobi with `withrho=False` ... -/
+restate relaxR_agrees_jacobi_norho := PyamgV.C16R.relaxSolveR_jacobi_norho
+/-- ... and a call of it is `C16.call` of the solver object (so section 1 applies) -/
+restate relaxR_call_is_call := PyamgV.C16R.relaxCallR_eq_call
+/-- whatever a call returns has the shape and size of `b` -/
+restate relaxR_call_shape := PyamgV.C16R.relaxCallR_shape
+/-- `A.nnz == 0`: zero correction in the shape of `b` -/
+restate relaxR_call_empty := PyamgV.C16R.relaxCallR_empty
+
+/-- **starts from zero, `iterations` sweeps of the kernel model** — jacobi (`ω = omega/rho` with the recorded estimate,
+or `omega`), also block_jacobi on point storage -/
+restate relaxR_jacobi_sweeps := PyamgV.C16R.relaxSolveR_jacobi
+/-- — block_jacobi on block storage (recorded block inverses) -/
+restate relaxR_block_jacobi_sweeps := PyamgV.C16R.relaxSolveR_block_jacobi
+/-- — block_gauss_seidel on block storage, every sweep direction -/
+restate relaxR_block_gauss_seidel_sweeps := PyamgV.C16R.relaxSolveR_block_gauss_seidel
+/-- — block_gauss_seidel on point storage is the gauss_seidel setup (`relax_gs_energy` applies) -/
+restate relaxR_block_gauss_seidel_point := PyamgV.C16R.relaxSolveR_block_gauss_seidel_point
+/-- — richardson: `relaxation.polynomial` with the coefficient `omega/rho` -/
+restate relaxR_richardson_sweeps := PyamgV.C16R.relaxSolveR_richardson
+/-- — chebyshev: `relaxation.polynomial` with `-coefficients[:-1]` -/
+restate relaxR_chebyshev_sweeps := PyamgV.C16R.relaxSolveR_chebyshev
+/-- — jacobi_ne (`ω = omega/rho²` or `omega`) -/
+restate relaxR_jacobi_ne_sweeps := PyamgV.C16R.relaxSolveR_jacobi_ne
+/-- — gauss_seidel_ne -/
+restate relaxR_gauss_seidel_ne_sweeps := PyamgV.C16R.relaxSolveR_gauss_seidel_ne
+/-- — gauss_seidel_nr (on the CSC arrays `cscOf A`, residual computed once) -/
+restate relaxR_gauss_seidel_nr_sweeps := PyamgV.C16R.relaxSolveR_gauss_seidel_nr
+
+/-- `relaxation.polynomial`, one iteration, is `x ← x + p(A)(b − A x)` (Horner form `polyOp`) -/
+restate polynomial_step_is_horner := PyamgV.C16R.polyStep_refines
+/-- **energy clause, jacobi / block_jacobi on point storage**, under the damping bound `ω·λ_max(D⁻¹A) ≤ 2` -/
+restate relax_jacobi_energy := PyamgV.C16R.relax_jacobi_energy
+/-- **energy clause, richardson**, under `ω·λ_max(A) ≤ 2` -/
+restate relax_richardson_energy := PyamgV.C16R.relax_richardson_energy
+/-- **2-norm clause, gauss_seidel_ne**: `‖x* − x‖₂ ≤ ‖x*‖₂`, any square consistent system, `0 ≤ ω ≤ 2` -/
+restate relax_gs_ne_error := PyamgV.C16R.relax_gs_ne_error
+/-- **2-norm clause, gauss_seidel_nr**: `‖b − A x‖₂ ≤ ‖b‖₂` for the CSC arrays ... -/
+restate relax_gs_nr_residual := PyamgV.C16R.relax_gs_nr_residual
+/-- ... and in terms of the CSR matrix itself -/
+restate relax_gs_nr_residual_csr := PyamgV.C16R.relax_gs_nr_residual_csr
+/-- **2-norm clause, jacobi_ne**, under the damping bound `ω·λ_max(Aᵀ D⁻¹ A) ≤ 2` -/
+restate relax_jacobi_ne_error := PyamgV.C16R.relax_jacobi_ne_error
+/-- the model's `A.tocsc()`: columns, canonical form, same operator -/
+restate csc_columns := PyamgV.C16R.rowOf_cscOf
+restate csc_canonical := PyamgV.C16R.rowsOK_cscOf
+restate csc_same_operator := PyamgV.C16R.cscOp_cscOf
+/-- the kernels as functions: `gauss_seidel_ne` row step, `gauss_seidel_nr` column step, `jacobi_ne` sweep -/
+restate ne_row_step_refines := PyamgV.C16R.neStep_refines
+restate nr_column_step_refines := PyamgV.C16R.nrStep_refines
+restate jacobi_ne_kernel_refines := PyamgV.C16R.jacobiNE_refines
+/-- the Python drivers of the model, from any start vector -/
+restate gauss_seidel_ne_error_nonexpansive := PyamgV.C16R.pyGaussSeidelNE_error
+restate gauss_seidel_nr_residual_nonexpansive := PyamgV.C16R.pyGaussSeidelNR_residual
+restate jacobi_ne_error_nonexpansive := PyamgV.C16R.pyJacobiNE_error
+/-- the hypotheses of the energy / 2-norm clauses hold on `[[2,-1],[-1,2]]`, `b = (1,1)` -/
+restate relaxR_hyps_satisfiable := PyamgV.C16R.relaxR_hyps_satisfiable
+
 /-! ## 4. the dispatch chain -/
 
 theorem dispatch_direct_names :
@@ -224,5 +298,33 @@ example :
     let A : K.Csr Rat := ⟨2, #[0, 2, 4], #[0, 1, 0, 1], #[2, -1, -1, 2]⟩
     (relaxSolve "gauss_seidel" {} A #[1, 1]).toOption.map (fun x => x.size) = some 2 ∧
     (relaxSolve "gauss_seidel" { iterations := some 1 } A #[1, 1]) = .ok #[1/2, 3/4] := by decide +kernel
+
+/-- E29: the extended relaxation model on `[[2,-1],[-1,2]]`, `b = (1,1)`, one iteration of each setup on recorded
+inputs (`rho = 3/2` resp. `3`, Chebyshev polynomial `(1/3, -4/3, 1)`); a missing estimate and `schwarz` are errors -/
+example :
+    let A : K.Csr Rat := ⟨2, #[0, 2, 4], #[0, 1, 0, 1], #[2, -1, -1, 2]⟩
+    let it1 : Opts Rat := { iterations := some 1 }
+    C16R.relaxSolveR id "jacobi" it1 { rho := some (3/2) } A #[1, 1] = .ok #[1/3, 1/3] ∧
+    C16R.relaxSolveR id "richardson" it1 { rho := some 3 } A #[1, 1] = .ok #[1/3, 1/3] ∧
+    C16R.relaxSolveR id "chebyshev" it1 { cheb := #[1/3, -4/3, 1] } A #[1, 1] = .ok #[1, 1] ∧
+    C16R.relaxSolveR id "jacobi_ne" it1 { rho := some (3/2) } A #[1, 1] = .ok #[4/45, 4/45] ∧
+    C16R.relaxSolveR id "gauss_seidel_ne" it1 {} A #[1, 1] = .ok #[1/25, 13/25] ∧
+    C16R.relaxSolveR id "gauss_seidel_nr" it1 {} A #[1, 1] = .ok #[1/5, 9/25] ∧
+    C16R.relaxSolveR id "gauss_seidel_nr" { iterations := some 2, sweep := some .symmetric } {} A #[1, 1] =
+      .ok #[2101/3125, 369/625] ∧
+    C16R.relaxSolveR id "jacobi" it1 {} A #[1, 1] = .error "no-rho" ∧
+    C16R.relaxSolveR id "schwarz" it1 {} A #[1, 1] = .error "unmodelled" := by decide +kernel
+
+/-- E29: the block kernels on the 1-D Poisson matrix of size 4 stored in 2x2 blocks, recorded block inverses
+`[[2/3,1/3],[1/3,2/3]]`; the model's `A.tocsc()` of that (symmetric) matrix -/
+example :
+    let A : K.Csr Rat := ⟨4, #[0, 2, 5, 8, 10], #[0, 1, 0, 1, 2, 1, 2, 3, 2, 3], #[2, -1, -1, 2, -1, -1, 2, -1, -1, 2]⟩
+    let B : K.Csr Rat := ⟨2, #[0, 2, 4], #[0, 1, 0, 1], #[2, -1, -1, 2, 0, 0, -1, 0, 0, -1, 0, 0, 2, -1, -1, 2]⟩
+    let D : Array Rat := #[2/3, 1/3, 1/3, 2/3, 2/3, 1/3, 1/3, 2/3]
+    C16R.relaxSolveR id "block_jacobi" { iterations := some 1 } { rho := some 1, bs := 2, bsr := B, dinv := D } A
+      #[1, 1, 1, 1] = .ok #[1, 1, 1, 1] ∧
+    C16R.relaxSolveR id "block_gauss_seidel" { iterations := some 1 } { bs := 2, bsr := B, dinv := D } A
+      #[1, 1, 1, 1] = .ok #[1, 1, 5/3, 4/3] ∧
+    (C16R.cscOf A).ap = A.ap ∧ (C16R.cscOf A).aj = A.aj ∧ (C16R.cscOf A).ax = A.ax := by decide +kernel
 
 end PyamgV.Props.C16
